@@ -792,6 +792,17 @@ func (e *Env) evalCall(n *Call) *Value {
 		}
 		d, ks := g.mapDomTerm(e.st, m)
 		return &Value{T: m.T, L: []string{d}, SetElem: ks}
+	case "locked":
+		// locked(x.mtx): the mutex at this address is held (tracked through Lock/Unlock calls)
+		lv := e.evalAddr(n.Args[0])
+		if lv == nil {
+			return e.fail("locked(): argument does not denote a mutex field")
+		}
+		id, ok := g.addrID(&Value{LV: lv, L: []string{"?"}})
+		if !ok {
+			return e.fail("locked(): unsupported address")
+		}
+		return boolVal(smtSel(g.compTerm(e.st, heldKey, arrSort(sInt, sBool)), id))
 	case "off":
 		v := e.eval(n.Args[0])
 		if len(v.L) != 4 {
